@@ -16,7 +16,7 @@ Require Import String.
 Require Import Arith Lia List Bool ZArith QArith Qcanon Permutation.
 From TK Require Import Mat_Sums Mat_Core Mat_Qc Mat_EigSelect EigSelect Mat_EigSelect_Tie
                        Lle_Model Lle_Spec Lle_Proof_Triplets Lle_Proof_Lle Lle_Proof_Ltsa
-                       Lle_Proof_Hlle Lle_Proof_Embed Lle_Proof_Gs Lle_Proof_GsQc Lle_Proof_KyFan Lle_Proof_Flat Lle_Proof_Run Lle_Loop HlleLoop Lle_Proof_Loop Lle_Proof_Psd Lle_Proof_EndToEnd.
+                       Lle_Proof_Hlle Lle_Proof_Embed Lle_Proof_Gs Lle_Proof_GsQc Lle_Proof_KyFan Lle_Proof_Flat Lle_Proof_Run Lle_Loop HlleLoop Lle_Proof_Loop Lle_Proof_Psd Lle_Proof_EndToEnd Lle_Proof_Scale.
 Import ListNotations.
 Local Open Scope nat_scope.
 
@@ -710,4 +710,86 @@ Proof.
   destruct C08_cost_minimal_nonvacuous as [HC [HE [Hc [Hasc _]]]].
   split; [|lia]. split; [exact HC|]. split; [exact HE|]. split; [exact Hc|]. split; [|exact Hasc].
   intros K. apply (f_equal this) in K. vm_compute in K. discriminate.
+Qed.
+
+(* ---------------------------------------------------------------------- *)
+(* 9. The unit of length is free (wave 2).  kscale c kern = c * kern.      *)
+(*    KLLE: the regulariser trace_shift * trace is RELATIVE: the local     *)
+(*    system scales by c and the sum-to-one weight rows are the same, so   *)
+(*    (I-W)^T (I-W) + shift I is the same matrix.  KLTSA / HLLE: the       *)
+(*    matrix the local eigensolver sees scales by c, the same eigenvector  *)
+(*    matrices meet the solver contract, and the routines take nothing     *)
+(*    else from the data.  The check therefore runs every stream on copies *)
+(*    scaled by 2^-60 .. 2^60 as well: an absolute threshold anywhere in   *)
+(*    the routines contradicts these theorems on a concrete input.         *)
+(* ---------------------------------------------------------------------- *)
+Theorem C08_lle_gram_seen_scale :
+  forall (F : Type) (Fo : FieldOps F) (Ff : IsField F) (k : nat) (c : F) (kern : mat F) (ts : F)
+         (nb : nat -> nat) (i : nat) (prev prev' : mat F) (a b : nat),
+    (forall a b, a < k -> b < k -> kern (nb a) (nb b) = kern (nb b) (nb a)) ->
+    a < k -> b < k ->
+    read_upper (lle_gram k (kscale c kern) ts nb i prev') a b =
+    (c * read_upper (lle_gram k kern ts nb i prev) a b)%F.
+Proof. exact @lle_gram_seen_scale. Qed.
+Print Assumptions C08_lle_gram_seen_scale.
+
+Theorem C08_lle_scale_free :
+  forall (F : Type) (Fo : FieldOps F) (Ff : IsField F) (k : nat) (c : F) (kern : mat F) (ts : F)
+         (nb : nat -> nat) (i : nat) (w : vec F),
+    c <> 0%F ->
+    (lle_weight_row k kern ts nb i w <-> lle_weight_row k (kscale c kern) ts nb i w).
+Proof. exact @lle_weight_row_scale. Qed.
+Print Assumptions C08_lle_scale_free.
+
+Example C08_lle_scale_free_nonvacuous :
+  qz 2 <> 0%F /\
+  lle_weight_row 2 c08_kern3 0%F (nbrs_of c08_nbr3 0) 0 (vof [qfrac 3 5; qfrac 2 5]).
+Proof.
+  split; [intros K; apply (f_equal this) in K; vm_compute in K; discriminate|].
+  exists (vof [qfrac 3 16; qfrac 1 8]). split; [|split].
+  - intros a Ha. destruct a as [|[|a]]; try lia; apply Qc_is_canon; vm_compute; reflexivity.
+  - intros K. apply (f_equal this) in K. vm_compute in K. discriminate.
+  - intros a Ha. destruct a as [|[|a]]; try lia; apply Qc_is_canon; vm_compute; reflexivity.
+Qed.
+
+Theorem C08_local_gram_scale :
+  forall (F : Type) (Fo : FieldOps F) (Ff : IsField F) (k : nat) (c : F) (kern : mat F)
+         (nb : nat -> nat) (a b : nat),
+    a < k -> b < k ->
+    local_centered_gram k (kscale c kern) nb a b = (c * local_centered_gram k kern nb a b)%F.
+Proof. exact @local_centered_gram_scale. Qed.
+Print Assumptions C08_local_gram_scale.
+
+Theorem C08_eig_contract_scale :
+  forall (F : Type) (Fo : FieldOps F) (Ff : IsField F) (k : nat) (c : F) (kern : mat F)
+         (nb : nat -> nat) (E : mat F) (lam : vec F),
+    c <> 0%F ->
+    (eig_contract k (local_centered_gram k kern nb) E lam <->
+     eig_contract k (local_centered_gram k (kscale c kern) nb) E (fun t => (c * lam t)%F)).
+Proof. exact @local_contract_scale. Qed.
+Print Assumptions C08_eig_contract_scale.
+
+(* curved data whose local eigenproblem is exact (the check's stream hlle-curved-sym): if the local
+   covariance Xc^T Xc is diagonal, the centred coordinate columns are eigenvectors of the Gram matrix
+   the local solver sees, with the variances as eigenvalues *)
+Theorem C08_diag_cov_eigvec :
+  forall (F : Type) (Fo : FieldOps F) (Ff : IsField F) (k D : nat) (B Xc : mat F) (s : vec F) (t a : nat),
+    meq k k B (mmul D Xc (mtrans Xc)) ->
+    (forall u v, u < D -> v < D ->
+        sumn k (fun b => (Xc b u * Xc b v)%F) = if Nat.eqb u v then s u else 0%F) ->
+    t < D -> a < k ->
+    sumn k (fun b => (B a b * Xc b t)%F) = (s t * Xc a t)%F.
+Proof. exact @diag_cov_eigvec. Qed.
+Print Assumptions C08_diag_cov_eigvec.
+
+Definition c08_Xsym : mat Qc := mof [[qz 1; qz 1]; [qz 1; qz (-1)]; [qz (-1); qz 1]; [qz (-1); qz (-1)]].
+
+Example C08_diag_cov_nonvacuous :
+  meq 4 4 (mmul 2 c08_Xsym (mtrans c08_Xsym)) (mmul 2 c08_Xsym (mtrans c08_Xsym)) /\
+  (forall u v, u < 2 -> v < 2 ->
+      sumn 4 (fun b => (c08_Xsym b u * c08_Xsym b v)%F) = if Nat.eqb u v then (fun _ => qz 4) u else 0%F).
+Proof.
+  split; [apply meq_refl|].
+  intros u v Hu Hv. destruct u as [|[|u]]; try lia; destruct v as [|[|v]]; try lia;
+    apply Qc_is_canon; vm_compute; reflexivity.
 Qed.
